@@ -252,6 +252,13 @@ func (s *sim) corrupt(p *pkgState, st Step) {
 			cur = []byte(genHeader + "package " + p.name + "\n\nimport (\n\t\"example.com/lib\"\n)\n\nfunc InitBar() Bar {\n\tfoo := ProvideFooOld()\n\tbar := ProvideBar(foo)\n\treturn bar\n}\n")
 		}
 		data = TweakOutput(cur)
+	case "tail":
+		// the current output followed by a left-over tail (a file that merely STARTS with what gen would write)
+		cur := s.outputs(p.name)[name]
+		if len(cur) == 0 || !inPremise(cur) {
+			cur = []byte(genHeader + "package " + p.name + "\n\nfunc InitBar() Bar {\n\tfoo := ProvideFooOld()\n\tbar := ProvideBar(foo)\n\treturn bar\n}\n")
+		}
+		data = append(append([]byte{}, cur...), []byte("\n// left-over tail of an older, longer output\nfunc StaleTail() {}\n")...)
 	case "noted":
 		// a previous output that somebody annotated by hand above the generated marker
 		cur := s.outputs(p.name)[name]
@@ -671,6 +678,10 @@ func (s *sim) cmd(idx int, st Step) string {
 			}
 			if !expectFail && res.Exit != 0 {
 				s.violate("C17", "F2", "gen/nonzero-without-failure", "exit 0", fmt.Sprintf("exit %d", res.Exit), firstLines(stderr, 4))
+				if fr.exit == 0 {
+					// the same command succeeds on a pristine tree with the same sources: only the history explains the failure
+					s.violate("C18", "R0", "gen/fails-because-of-what-is-on-disk", "exit 0 (the same command succeeds on a fresh checkout of the same sources)", fmt.Sprintf("exit %d", res.Exit), fmt.Sprintf("%s; stderr: %s", st, firstLines(stderr, 3)))
+				}
 			}
 			// ---------------- F3 isolation (C17) / R1 history independence (C18)
 			loadOK := !loadFails && !st.NoGo && st.Header != "missing" && st.Header != "dir" && !firedHas(fired, "getwd") && !firedHas(fired, "read:")
@@ -685,7 +696,31 @@ func (s *sim) cmd(idx int, st Step) string {
 					want := fr.out[n]
 					got, present := s.outputs(n)[outName]
 					if want == nil {
-						continue // fresh run produced nothing here: no expectation
+						// The reference run of the SAME command produced nothing for a package whose label says
+						// "has injectors, accepted" and whose diagnostics agree. C17 promises an output for each such
+						// package whatever its neighbours do: take the reference from generating this package alone.
+						alone := s.fresh("gen", Step{Op: "cmd", Cmd: "gen", Patterns: []string{"./" + n}, Header: st.Header, Tags: ""})
+						if alone.infra != "" {
+							return alone.infra
+						}
+						if alone.out[n] == nil || st.Tags != "" && !present {
+							if alone.out[n] != nil {
+								s.violate("C17", "F5", "gen/no-output-for-accepted-package-with-injectors", "an output file (generating this package alone, without -tags, produces one)", "none, and no diagnostic", fmt.Sprintf("package %s after %s", n, st))
+							}
+							continue
+						}
+						if st.Tags != "" {
+							continue // bytes differ by the go:generate line; presence was all that could be checked
+						}
+						want = alone.out[n]
+						if !present || !bytes.Equal(got, want) {
+							obs := digest(got)
+							if !present {
+								obs = "absent"
+							}
+							s.violate("C17", "F3", "gen/other-package-not-generated", digest(want), obs, fmt.Sprintf("package %s after %s (reference: the package generated alone on a pristine tree)", n, st))
+						}
+						continue
 					}
 					if !present || !bytes.Equal(got, want) {
 						prop, clause := "C18", "R1"
@@ -852,6 +887,8 @@ func modeBefore(data []byte) string {
 		return "empty"
 	case bytes.Contains(data, []byte("\tzz1 \"")) || bytes.Contains(data, []byte("import zz1 ")):
 		return "tweaked"
+	case bytes.Contains(data, []byte("left-over tail of an older")):
+		return "tail"
 	case bytes.Contains(data, []byte("NOTE(bob)")):
 		return "noted"
 	case bytes.Contains(data, []byte("padding padding")):
